@@ -215,4 +215,216 @@ theorem rotRead2_spec (q : ℤ) (n : ℕ) (lamk tk : List ℤ) (rest : List (Opt
   rw [bind_ok (good_false _ cs sent)]
   simp only [Bool.not_true, Bool.false_eq_true, if_false]
   rfl
+/-! ### PUB-ROT-ZK: prover's moves and the verifier's equations -/
+
+/-- the value of `G = Π_j c_j^{β_j}` for `c_j = g^{a_j} h^{u_j}` -/
+theorem prodPow_rot (hG : ValidGroup G) (S : State) (hS : StateOk G S) (n : ℕ) (c beta : List ℤ)
+    (a u : ℕ → ℤ) (lc : c.length = n) (lb : beta.length = n)
+    (hc : ∀ j < n, Val G (c.getD j 0) (toF G G.g ^ a j * toF G S.h ^ u j)) :
+    ∃ Gv, prodPow G.p c beta = .ok Gv ∧
+      Val G Gv (toF G G.g ^ (∑ j ∈ Finset.range n, a j * beta.getD j 0) *
+        toF G S.h ^ (∑ j ∈ Finset.range n, u j * beta.getD j 0)) := by
+  have hg0 := g_ne hG
+  have hh0 := h_ne hG S hS
+  have hcu : ∀ x ∈ c, toF G x ≠ 0 := by
+    intro x hx
+    obtain ⟨j, hj, rfl⟩ := List.getElem_of_mem hx
+    have := (hc j (by omega)).2.2
+    rw [List.getD_eq_getElem _ _ hj] at this
+    rw [this]; exact mul_ne_zero (zpow_ne_zero _ hg0) (zpow_ne_zero _ hh0)
+  obtain ⟨Gv, hGv, v0, vp, vv⟩ := prodPow_val hG c beta hcu
+  refine ⟨Gv, hGv, v0, vp, ?_⟩
+  rw [vv]
+  conv_lhs => rw [list_eq_map_range c 0 n lc]
+  rw [zip_map_range _ beta 0 n lb, List.map_map, prod_map_range]
+  rw [← prod_zpow_sum _ hg0, ← prod_zpow_sum _ hh0, ← Finset.prod_mul_distrib]
+  apply Finset.prod_congr rfl
+  intro j hj
+  have := (hc j (Finset.mem_range.mp hj)).2.2
+  simp only [Function.comp]
+  rw [this, mul_zpow, ← zpow_mul, ← zpow_mul]
+
+/-- what the prover's second move of PUB-ROT-ZK produces -/
+theorem rotMove2_spec (hG : ValidGroup G) (S : State) (hS : StateOk G S) (r : ℕ) (alpha c beta : List ℤ)
+    (Gv : ℤ) (hGv : prodPow G.p c beta = .ok Gv) (hGv0 : toF G Gv ≠ 0)
+    (u : ℤ) (lt rest : List ℤ) (hu : 0 ≤ u ∧ u < G.q) (hlt : InQ G.q lt)
+    (llt : lt.length = 2 * (alpha.length - 1))
+    (peer : List (Option ℤ)) (sent : List ℤ) (tr : Bool) :
+    ∃ f, rotMove2 S r alpha c beta ⟨peer, u :: (lt ++ rest), sent, tr⟩ =
+        .ok ⟨u, lt, f⟩ ⟨peer, rest, sent ++ f, tr⟩ ∧ f.length = alpha.length ∧
+      ∀ j < alpha.length, if j = r then Val G (f.getD j 0) (toF G S.h ^ u) else
+        Val G (f.getD j 0) (toF G G.g ^ ((RotCtx.lam ⟨u, lt, f⟩ r j) * gamma G.q alpha beta j % G.q) *
+          toF G S.h ^ (RotCtx.t ⟨u, lt, f⟩ r j) * (toF G Gv ^ (RotCtx.lam ⟨u, lt, f⟩ r j))⁻¹) := by
+  have hq := hG.q_pos
+  have hr2 : ∀ i, (lt.getD i 0).natAbs < G.q.natAbs := fun i => natAbs_lt_of_range hG (hlt.getD hq _)
+  obtain ⟨sim, hsim, lsim, psim⟩ := mapE_range
+    (fun j => if j = r then pure 0
+      else rotSim S Gv alpha beta j (lt.getD (2 * skipIdx r j) 0) (lt.getD (2 * skipIdx r j + 1) 0))
+    (fun j b => j ≠ r → Val G b (toF G G.g ^ (lt.getD (2 * skipIdx r j) 0 * gamma G.q alpha beta j % G.q) *
+          toF G S.h ^ lt.getD (2 * skipIdx r j + 1) 0 * (toF G Gv ^ lt.getD (2 * skipIdx r j) 0)⁻¹))
+    alpha.length 0 (by
+      intro j hj
+      by_cases hjr : j = r
+      · exact ⟨0, by simp only [hjr, if_true]; rfl, fun h => absurd hjr h⟩
+      · obtain ⟨f, hf, hv⟩ := rotSim_val hG S hS Gv alpha beta j (lt.getD (2 * skipIdx r j) 0)
+          (lt.getD (2 * skipIdx r j + 1) 0) hGv0 (hr2 _)
+        exact ⟨f, by simp only [hjr, if_false]; exact hf, fun _ => hv⟩)
+  obtain ⟨fr, hfr, fr0, frp, frv⟩ := fspowm_val hG S.tabH S.h u hS.tabH (h_ne hG S hS)
+    (natAbs_lt_of_range hG hu)
+  refine ⟨(List.range alpha.length).map fun j => if j = r then fr else sim.getD j 0, ?_, by simp, ?_⟩
+  · simp only [rotMove2]
+    rw [bind_ok (draw_spec peer u _ sent tr)]
+    rw [hS.grp, bind_ok (liftE_ok hGv _)]
+    rw [bind_ok (drawN_spec _ peer lt rest sent tr llt)]
+    rw [bind_ok (liftE_ok hsim _)]
+    rw [bind_ok (liftE_ok hfr _)]
+    rw [bind_ok (sendAll_apply _ _)]
+    rfl
+  · intro j hj
+    rw [getD_map_range _ _ _ _ hj]
+    by_cases hjr : j = r
+    · simp only [hjr, if_true]; exact ⟨fr0, frp, frv⟩
+    · simp only [hjr, if_false]; exact psim j hj hjr
+
+theorem sum_filter_ne (r : ℕ) (f : ℕ → ℤ) : ∀ l : List ℕ,
+    ((l.filter (· ≠ r)).map f).sum = (l.map fun j => if j = r then 0 else f j).sum
+  | [] => rfl
+  | j :: l => by
+    have ih := sum_filter_ne r f l
+    by_cases h : j = r <;> simp_all
+
+theorem sum_ite_split (r : ℕ) (a : ℤ) (f : ℕ → ℤ) : ∀ l : List ℕ,
+    (l.map fun j => if j = r then a else f j).sum =
+      (l.map fun j => if j = r then a else 0).sum + (l.map fun j => if j = r then 0 else f j).sum
+  | [] => rfl
+  | j :: l => by
+    by_cases h : j = r
+    · simp [h, sum_ite_split r a f l]; ring
+    · simp [h, sum_ite_split r a f l]; ring
+
+theorem sum_single (n r : ℕ) (hr : r < n) (a : ℤ) :
+    ((List.range n).map fun j => if j = r then a else 0).sum = a := by
+  rw [sum_map_range, Finset.sum_ite_eq' (Finset.range n) r (fun _ => a)]
+  simp [hr]
+
+/-- `λ_r` closes the sum: `Σ_j λ_j ≡ λ (mod q)` -/
+theorem lamr_sum (q : ℤ) (hq : 0 < q) (lam T : ℤ) (h : 0 ≤ lam ∧ lam < q) :
+    ((lam - T % q + q) % q + T) % q = lam := by
+  rw [Int.emod_add_emod]
+  have : lam - T % q + q + T = lam + q * (1 + T / q) := by rw [Int.emod_def]; ring
+  rw [this, Int.add_mul_emod_self_left, Int.emod_eq_of_lt h.1 h.2]
+
+theorem rot_core (hG : ValidGroup G) (S : State) (hS : StateOk G S) (r : ℕ)
+    (alpha uk c beta : List ℤ) (hr : r < alpha.length)
+    (luk : uk.length = alpha.length) (lc : c.length = alpha.length) (lb : beta.length = alpha.length)
+    (hc : ∀ j < alpha.length, Val G (c.getD j 0)
+      (toF G G.g ^ arOf alpha.length r alpha j * toF G S.h ^ uk.getD j 0))
+    (u : ℤ) (lt rest : List ℤ) (hu : 0 ≤ u ∧ u < G.q) (hlt : InQ G.q lt)
+    (llt : lt.length = 2 * (alpha.length - 1))
+    (peer : List (Option ℤ)) (sent : List ℤ) (tr : Bool) :
+    ∃ x, rotMove2 S r alpha c beta ⟨peer, u :: (lt ++ rest), sent, tr⟩ =
+        .ok x ⟨peer, rest, sent ++ x.f, tr⟩ ∧ x.f.length = alpha.length ∧
+      (∀ e ∈ x.f, checkElement .schnorr S.G e = true) ∧
+      ∀ lambda, 0 ≤ lambda ∧ lambda < G.q →
+        (rotResp S.G.q r uk beta x lambda).1.length = alpha.length ∧
+        (rotResp S.G.q r uk beta x lambda).2.length = alpha.length ∧
+        (∀ e ∈ (rotResp S.G.q r uk beta x lambda).1, inRange S.G.q e = true) ∧
+        (∀ e ∈ (rotResp S.G.q r uk beta x lambda).2, inRange S.G.q e = true) ∧
+        rotChecks S alpha c beta x.f lambda (rotResp S.G.q r uk beta x lambda).1
+          (rotResp S.G.q r uk beta x lambda).2 = .ok true := by
+  have hq := hG.q_pos
+  have hg0 := g_ne hG
+  have hh0 := h_ne hG S hS
+  have hgq := g_sub hG
+  have hhq := h_sub S hS
+  obtain ⟨Gv, hGv, Gv0, Gvp, Gvv⟩ := prodPow_rot hG S hS alpha.length c beta
+    (arOf alpha.length r alpha) (fun j => uk.getD j 0) lc lb hc
+  have hGvne : toF G Gv ≠ 0 := by
+    rw [Gvv]; exact mul_ne_zero (zpow_ne_zero _ hg0) (zpow_ne_zero _ hh0)
+  have hGvq : toF G Gv ^ G.q.natAbs = 1 := by
+    rw [Gvv, mul_pow, zpow_pow_q hgq, zpow_pow_q hhq, one_mul]
+  obtain ⟨f, hf, lf, pf⟩ := rotMove2_spec hG S hS r alpha c beta Gv hGv hGvne u lt rest hu hlt llt
+    peer sent tr
+  have hltr : ∀ i, (lt.getD i 0).natAbs < G.q.natAbs := fun i => natAbs_lt_of_range hG (hlt.getD hq _)
+  have hgam : ∀ k, (gamma G.q alpha beta k).natAbs < G.q.natAbs := by
+    intro k; rw [gamma_eq hG alpha beta k lb]; exact natAbs_mod_lt hG _
+  refine ⟨⟨u, lt, f⟩, hf, lf, ?_, ?_⟩
+  · -- the commitments are group elements
+    intro e he
+    obtain ⟨j, hj, rfl⟩ := List.getElem_of_mem he
+    have hj' : j < alpha.length := by rw [← lf]; exact hj
+    have := pf j hj'
+    rw [List.getD_eq_getElem _ _ hj] at this
+    rw [hS.grp]
+    show checkElement .schnorr G f[j] = true
+    by_cases hjr : j = r
+    · rw [if_pos hjr] at this
+      exact this.elem hG (zpow_pow_q hhq _)
+    · rw [if_neg hjr] at this
+      refine this.elem hG ?_
+      rw [mul_pow, mul_pow, inv_pow, zpow_pow_q hgq, zpow_pow_q hhq, zpow_pow_q hGvq, inv_one,
+        one_mul, one_mul]
+  · intro lambda hlam
+    rw [hS.grp]
+    have hmem : ∀ (g : ℕ → ℤ), (∀ j, (g j).natAbs < G.q.natAbs) →
+        ∀ e ∈ (List.range beta.length).map g, inRange G.q e = true := by
+      intro g hg e he
+      obtain ⟨j, -, rfl⟩ := List.mem_map.mp he
+      simpa [inRange] using hg j
+    refine ⟨by simp [rotResp, lb], by simp [rotResp, lb], ?_, ?_, ?_⟩
+    · apply hmem
+      intro j
+      by_cases hjr : j = r
+      · simp only [hjr, if_true]; exact natAbs_mod_lt hG _
+      · simp only [hjr, if_false]; exact hltr _
+    · apply hmem
+      intro j
+      by_cases hjr : j = r
+      · simp only [hjr, if_true]; exact natAbs_mod_lt hG _
+      · simp only [hjr, if_false]; exact hltr _
+    · -- the verifier's equations
+      have hn : beta.length = alpha.length := lb
+      set lamO : ℕ → ℤ := fun j => lt.getD (2 * skipIdx r j) 0 with hlamO
+      set tO : ℕ → ℤ := fun j => lt.getD (2 * skipIdx r j + 1) 0 with htO
+      set T : ℤ := ((List.range beta.length).map fun j => if j = r then 0 else lamO j).sum with hT
+      set lamr : ℤ := (lambda - T % G.q + G.q) % G.q with hlamr
+      set sig' : ℤ := dotMod G.q uk beta with hsig'
+      set trr : ℤ := (u + sig' * lamr % G.q) % G.q with htrr
+      have hresp : rotResp G.q r uk beta ⟨u, lt, f⟩ lambda =
+          ((List.range beta.length).map fun j => if j = r then lamr else lamO j,
+           (List.range beta.length).map fun j => if j = r then trr else tO j) := by
+        simp only [rotResp, RotCtx.lam, RotCtx.t]
+        rw [sumMod_eq G.q hq, sum_filter_ne]
+        rfl
+      rw [hresp]
+      have hsum : lambda = sumMod G.q ((List.range beta.length).map fun j =>
+          if j = r then lamr else lamO j) := by
+        rw [sumMod_eq G.q hq, sum_ite_split, sum_single _ _ (by omega), ← hT]
+        exact (lamr_sum G.q hq lambda T hlam).symm
+      have hsig : sig' % G.q = (∑ j ∈ Finset.range alpha.length, uk.getD j 0 * beta.getD j 0) % G.q := by
+        rw [hsig']
+        conv_lhs => rw [list_eq_map_range uk 0 alpha.length luk]
+        rw [dotMod_range hG _ beta alpha.length lb, Int.emod_emod_of_dvd _ (dvd_refl _)]
+      have hGr : toF G Gv = toF G G.g ^ gamma G.q alpha beta r *
+          toF G S.h ^ (∑ j ∈ Finset.range alpha.length, uk.getD j 0 * beta.getD j 0) := by
+        rw [Gvv, gamma_eq hG alpha beta r lb, zpow_mod_q hG _ hgq hg0]
+        rfl
+      simp only [rotChecks, hS.grp]
+      rw [if_neg (by simpa using hsum)]
+      simp only [bind, Except.bind, hGv]
+      apply allE_range_true
+      intro k hk
+      rw [getD_map_range _ _ _ _ (by omega), getD_map_range _ _ _ _ (by omega)]
+      have hfk := pf k hk
+      by_cases hkr : k = r
+      · rw [if_pos hkr, hkr] at hfk
+        simp only [hkr, if_true]
+        apply rotCheck_ok hG S hS Gv alpha beta r _ _ _ hGvne (natAbs_mod_lt hG _) (hgam r)
+        rw [hfk.2.2]
+        exact rot_real_alg hG _ _ hgq hhq _ _ sig' u lamr hsig _ hGr
+      · rw [if_neg hkr] at hfk
+        simp only [hkr, if_false]
+        apply rotCheck_ok hG S hS Gv alpha beta k _ _ _ hGvne (hltr _) (hgam k)
+        rw [hfk.2.2]
+        exact rot_sim_alg hG _ _ _ hgq hh0 hGvne _ _ _
 end Tmcg.Args
